@@ -566,11 +566,15 @@ def week_before_year1(case):
 def in_proved_family(case):
     """STATISTIC ONLY (mirrors RRStripThm.coarse_guard_all / RRSubSpAll.sfam_sa, without the fuel bound):
     is a rule of the specification's domain covered by one of the loop theorems?"""
-    if case.get("byeaster") is not None:
-        return False
     if any(abs(n) > 53 for n in (case.get("byweekno") or [])):
         return False
     f = case["freq"]
+    if case.get("byeaster") is not None:
+        # RREasterTop.easter_guard: coarse FREQ, BYDAY without numeric prefix, years inside C19's range (the bound
+        # on the number of passes is approximated by the start year)
+        plain = all(n == 0 for _, n in (case.get("byweekday") or []))
+        return f <= 3 and plain and 1584 <= case["start"]["y"] <= 4090 and \
+            not (f == 2 and week_before_year1(case))
     if f == 2:
         return not week_before_year1(case)
     return True        # YEARLY, MONTHLY, DAILY: every rule; sub-daily: every rule (rset's RRSubSpAll)
